@@ -727,6 +727,12 @@ def cases(draw, avoid: frozenset = frozenset(), on_excluded=None, max_mods: int 
             for pos, stmt in sorted(new, key=lambda x: -x[0]):
                 scope_body.insert(pos, stmt)
         sim[mod["path"]] = G._sim_module(case, mod, sim, paths, pkgs)
+    # stub-only variant: some modules / sub-packages exist only as `.pyi` (`__init__.pyi`) in the tree Griffe loads;
+    # CPython imports the same text rendered as `.py` (see vp/props/c04.py)
+    if draw(st.integers(0, 2)) == 2:
+        stubs = [m["path"] for m in case["mods"] if m["path"] != "" and draw(st.integers(0, 3)) < (2 if m["pkg"] else 1)]
+        if stubs:
+            case["stubs"] = stubs
     return case
 
 
